@@ -462,6 +462,10 @@ func lifeMain(args []string) error {
 				scns = append(scns, lifeScn{K: k, Answers: true, Chan: rep % 2, Burst: true, Ops: []lifeOp{{Op: "peer", N: 1}, {Op: "connclose"}, {Op: "next"},
 					{Op: "next"}, {Op: "send"}}})
 			}
+			// the connection's context ends first, Conn.Close afterwards: it still closes channels and
+			// transport and ends the reader
+			scns = append(scns, lifeScn{K: k, Answers: true, Ops: []lifeOp{{Op: "cancel", Ctx: "conn"}, {Op: "connclose"}, {Op: "next"}, {Op: "send"}}})
+			scns = append(scns, lifeScn{K: k, Answers: true, Chan: 1, Ops: []lifeOp{{Op: "peer", N: 1}, {Op: "cancel", Ctx: "conn"}, {Op: "connclose"}, {Op: "next"}}})
 			// sends with cancelled contexts
 			scns = append(scns, lifeScn{K: k, Answers: true, Ops: []lifeOp{{Op: "send", Ctx: "cancelled"}, {Op: "send"}, {Op: "send", Ctx: "cancelled"}}})
 		}
